@@ -32,8 +32,8 @@ ASSUMPTIONS = ["named types are not called like a built-in type name", "logical 
 PARTIAL = ["C08_factor is proved as C08_factor_code (rdec = decode ; rval: all schema pairs, options, layouts) + C08_factor_zone_partial (rval = resolve for "
            "schemas without by-name references under the computable condition `agree`, C08_factor_zone_refs_partial for schemas with by-name references / "
            "recursive types under `agreen k` (k >= height of the value): no empty reader union, no empty-string enum default, well-formed JSON defaults); that "
-           "the code's match verdicts / reader-union branch choice / record guard coincide with the specification's is proved; missing: logicalType annotations "
-           "on non-primitive types, nested unions, reader options. The full statement was false of the "
+           "the code's match verdicts / reader-union branch choice / record guard coincide with the specification's is proved; all for ANY reader options; missing: logicalType annotations "
+           "on non-primitive types, nested unions. The full statement was false of the "
            "code before the repairs (C08_old_code_refuted_*, about model/ResolveOld.v)"]
 
 SRE = "SchemaResolutionError"
@@ -798,7 +798,7 @@ def compare(ctx, c, route, res, mtext, with_rest, corr="corr:resolve"):
         ctx.violation(corr, c.to_json(route), impl=(G.show_py(res[1]) + "|" + str(res[2]) if ic == "V" else "%s %s: %s" % (ic, res[1], res[2]))[:1500],
                       model=("rdec: " + rd)[:1500], signature="C08:model-differs:%s-vs-%s" % (ic, rd[:2]), found_input=False,
                       detail="the implementation differs from the model rdec but agrees with the specification on this case" if default_opts
-                      else "reader options: only the tie is compared")
+                      else "")
 
 
 def run(ctx):
@@ -893,8 +893,6 @@ def replay(ctx, rep):
         print("[%s] implementation: %s" % (route, G.show_py(res[1]) if ic == "V" else "%s %s %s" % (ic, res[1], res[2])))
         print("[%s] model rdec     : %s" % (route, rd[:600]))
         print("[%s] specification  : %s   (%s the agreement zone)" % (route, spec[:600], "inside" if zone in ("Z1", "Z2") else "outside"))
-        if c.ropts:
-            continue
         if spec.startswith("V:"):
             good = ic == "V" and canon_py(res[1]) == parse_show(spec[2:])
         elif spec == "ER":
